@@ -326,9 +326,21 @@ def run(ctx):
     ctx.floor("R20.4", "register_* implementations", len(regs), 3)
     for b in regs:
         pr = Prov(b)
+        kind_ = b.name.split("_", 1)[1]
         goc = [c for c in b.calls() if c.name.startswith("get_or_create_")]
+        goc_kind = {c.bb: c.name for c in goc}
+        # ... or a private one-line accessor that is such a get_or_create call on its receiver and returns its result
+        for c in b.calls():
+            if c.bb in goc_kind:
+                continue
+            for hb in local_callee_bodies(F, c):
+                hg = [x for x in hb.calls() if x.name.startswith("get_or_create_")]
+                if hb.crate == MR and hb.kind != "Closure" and len(hg) == 1 and not hg[0].dest.get("p") and (hg[0].dest["l"] == 0 or ("call", hg[0].bb) in Prov(hb).local(0)) and \
+                        any(x[0] == "arg" and x[1] == 1 for x in Prov(hb).operand(hg[0].args[0])):
+                    goc.append(c)
+                    goc_kind[c.bb] = hg[0].name
         fa = [c for c in b.calls() if c.name == "from_arc"]
-        ok = len(goc) == 1 and len(fa) == 1 and ("call", goc[0].bb) in pr.operand(fa[0].args[0]) and goc[0].name.endswith(b.name.split("_", 1)[1])
+        ok = len(goc) == 1 and len(fa) == 1 and ("call", goc[0].bb) in pr.operand(fa[0].args[0]) and goc_kind[goc[0].bb].endswith(kind_)
         ctx.check(ok, "R20.4", fnkey(b) + "#handle-shares-registry-storage", loc(b), "the handle returned by %s is not built from the registry's get_or_create storage" % b.name)
     descs = [b for b in F.all_bodies(MR) if b.name.startswith("describe_") and "MetricRecorder<" in ((b.impl or {}).get("self_ty") or "") and b.kind == "AssocFn"]
     ctx.floor("R20.4", "describe_* implementations", len(descs), 3)
